@@ -29,7 +29,9 @@ MovedMatches == {<<mv[1], mv[2]>> : mv \in ToSet(Ev.moved)} = {mn \in AllNodes :
 Is(e) == l <= Len(Evs) /\ Ev.ev = e
 OfMol == Ev.mol = mol
 \* numeric sub-claims of C05 evaluated by the harness monitor (DESIGN 6) are required on every accepted placement
-\* (Ev.obs is a record of booleans; the raw numbers travel in Ev.raw and are not interpreted here)
+\* (Ev.obs is a record of booleans; the raw numbers travel in Ev.raw and are not interpreted here).  C17's own monitors: `anchored`
+\* (an accepted placement is one step from the position its neighbour has NOW) and `views` (after every roll-back - rewind, cleanup,
+\* end of a walk, handled attempt - the engine's table, index lists, node->tree map and search trees describe the same residues)
 ObsOK == IF "obs" \in DOMAIN Ev THEN \A f \in DOMAIN Ev.obs : Ev.obs[f] ELSE TRUE
 \* C07: the restraints the code attached to the residue being placed are exactly those the build file selects for it
 Bld == IF "bld" \in DOMAIN Traces[tid] THEN Traces[tid].bld ELSE <<>>
@@ -49,12 +51,12 @@ TNext == \/ (SkipMolecule /\ Silent)
          \/ (Is("ok") /\ OfMol /\ step <= Len(Path) /\ Path[step] = <<Ev.prev, Ev.cur>> /\ PlaceOk /\ ObsOK /\ RidsOK(Ev.cur) /\ Consume)
          \/ (Is("fail") /\ OfMol /\ step <= Len(Path) /\ Path[step] = <<Ev.prev, Ev.cur>> /\ PlaceFail /\ Consume)
          \/ (Is("rewind") /\ OfMol /\ Rewind /\ Ev.to = step' /\ Len(Ev.placed) = Len(placed')
-               /\ (\A i \in 1..Len(placed') : placed'[i] = <<Ev.placed[i][1], Ev.placed[i][2]>>) /\ Consume)
-         \/ (Is("end") /\ OfMol /\ ~Ev.success /\ EndFail /\ Consume)
-         \/ (Is("end") /\ OfMol /\ EndWalk /\ Ev.success = success /\ Consume)
-         \/ (Is("cleanup") /\ OfMol /\ ToSet(Ev.nodes) = BuildSet(mol) /\ (AttemptFailed \/ GiveUp) /\ Consume)
-         \/ (Is("handled") /\ OfMol /\ ~Ev.success /\ HandledFail /\ Consume)
-         \/ (Is("handled") /\ OfMol /\ Ev.success /\ Accept /\ Consume)
+               /\ (\A i \in 1..Len(placed') : placed'[i] = <<Ev.placed[i][1], Ev.placed[i][2]>>) /\ ObsOK /\ Consume)
+         \/ (Is("end") /\ OfMol /\ ~Ev.success /\ EndFail /\ ObsOK /\ Consume)
+         \/ (Is("end") /\ OfMol /\ EndWalk /\ Ev.success = success /\ ObsOK /\ Consume)
+         \/ (Is("cleanup") /\ OfMol /\ ToSet(Ev.nodes) = BuildSet(mol) /\ (AttemptFailed \/ GiveUp) /\ ObsOK /\ Consume)
+         \/ (Is("handled") /\ OfMol /\ ~Ev.success /\ HandledFail /\ ObsOK /\ Consume)
+         \/ (Is("handled") /\ OfMol /\ Ev.success /\ Accept /\ ObsOK /\ Consume)
          \/ (Is("finish") /\ Finish /\ ObsOK /\ Consume)
 TSpec == TInit /\ [][TNext]_<<vars, tid, l>>
 \* fails is model bookkeeping only: traces may contain any number of failures
